@@ -4,6 +4,8 @@ import (
 	"bytes"
 	"encoding/binary"
 	"fmt"
+	"sort"
+	"sync"
 	"sync/atomic"
 	"testing"
 	"time"
@@ -169,41 +171,83 @@ func c05Variants(c *rtr.Case, key []byte, cfg *rtr.Cfg) []c05Variant {
 				nids = append(nids, f.ID)
 			}
 		}
+		v := c.V[0]
+		afterXover := v.Inf > 0 && v.Hop == c05SegStart(&c.Pkt, v.Inf) && !c.Pkt.Segs[v.Inf].Peer
+		// At the first hop after a (non-peering) segment change the AS ingress is named by the last hop field of the
+		// PREVIOUS segment, read with the ConsDir flag of the PREVIOUS segment. That hop field's other interface (0 where the
+		// segment really ends, the unused parent interface on a shortcut) says nothing about where the packet entered the AS,
+		// and this router does not authenticate that hop field: the other interface ranges over "as generated", 0, every
+		// interface of the AS (own, sibling 1, sibling 2) and an unknown one, crossed with the ingress interface itself.
+		type oth struct {
+			keep bool
+			id   uint16
+		}
+		others := []oth{{keep: true}}
+		if afterXover {
+			nids = append(nids, c.In.IfID)
+			for _, x := range c05LocalIDs(cfg) {
+				others = append(others, oth{id: x})
+			}
+			others = append(others, oth{id: 999})
+		}
 		for _, nid := range nids {
-			p := c.Pkt.Clone()
-			v := c.V[0]
-			// the hop field that names the AS ingress: the current one, or (first hop after a cross-over) the
-			// previous one, which this router does not validate.
-			cur := p.HopRef(v.Hop)
-			seg := &p.Segs[v.Inf]
-			firstOfSeg := v.Inf > 0 && v.Hop == c05SegStart(&p, v.Inf)
-			if firstOfSeg && !seg.Peer {
-				prev := p.HopRef(v.Hop - 1)
-				if p.Segs[v.Inf-1].ConsDir {
-					prev.In = nid
+			for _, ot := range others {
+				if nid == c.In.IfID && ot.keep {
+					continue // the case as generated
+				}
+				p := c.Pkt.Clone()
+				// the hop field that names the AS ingress: the current one, or (first hop after a cross-over) the
+				// previous one, which this router does not validate.
+				cur := p.HopRef(v.Hop)
+				seg := &p.Segs[v.Inf]
+				name := fmt.Sprintf("hop-ingress=%d", nid)
+				if afterXover {
+					prev := p.HopRef(v.Hop - 1)
+					if p.Segs[v.Inf-1].ConsDir {
+						prev.In = nid
+						if !ot.keep {
+							prev.Eg = ot.id
+						}
+					} else {
+						prev.Eg = nid
+						if !ot.keep {
+							prev.In = ot.id
+						}
+					}
+					if !ot.keep {
+						name += fmt.Sprintf("/prev-hop-other-interface=%d", ot.id)
+					}
 				} else {
-					prev.Eg = nid
+					if seg.ConsDir {
+						cur.In = nid
+					} else {
+						cur.Eg = nid
+					}
+					full := rtr.FullHopMAC(key, v.Sigma, v.TS, cur.Exp, cur.In, cur.Eg)
+					copy(cur.Mac[:], full[:6])
 				}
-			} else {
-				if seg.ConsDir {
-					cur.In = nid
-				} else {
-					cur.Eg = nid
+				vr := c05Variant{name: name, pkt: p, ingressIf: nid}
+				switch {
+				case nid == c.In.IfID:
+					// only the unused interface of the previous hop field differs from the generated case
+					vr.canonical, vr.reduced, vr.cls = true, true, "previous-hop-other-interface-renumbered"
+				case c.In.Kind == 1:
+					vr.reduced, vr.cls = true, "external-ingress-case:hop-ingress=sibling-owned-interface"
+					if nid == 0 || nid == 999 {
+						vr.cls = fmt.Sprintf("external-ingress-case:hop-ingress=%d", nid)
+					}
+				case nid != 0 && nid != 999:
+					vr.reduced, vr.cls = true, "hop-ingress=other-sibling-owned-interface"
 				}
-				full := rtr.FullHopMAC(key, v.Sigma, v.TS, cur.Exp, cur.In, cur.Eg)
-				copy(cur.Mac[:], full[:6])
+				if !ot.keep && nid != c.In.IfID {
+					vr.reduced = true
+					if vr.cls == "" {
+						vr.cls = name[:len(fmt.Sprintf("hop-ingress=%d", nid))]
+					}
+					vr.cls += "+previous-hop-other-interface-renumbered"
+				}
+				out = append(out, vr)
 			}
-			vr := c05Variant{name: fmt.Sprintf("hop-ingress=%d", nid), pkt: p, ingressIf: nid}
-			switch {
-			case c.In.Kind == 1:
-				vr.reduced, vr.cls = true, "external-ingress-case:hop-ingress=sibling-owned-interface"
-				if nid == 0 || nid == 999 {
-					vr.cls = fmt.Sprintf("external-ingress-case:hop-ingress=%d", nid)
-				}
-			case nid != 0 && nid != 999:
-				vr.reduced, vr.cls = true, "hop-ingress=other-sibling-owned-interface"
-			}
-			out = append(out, vr)
 		}
 	}
 	return out
@@ -238,10 +282,16 @@ func TestC05(t *testing.T) {
 		name string
 		h    rtr.Host
 	}{{"v4", rtr.V4("10.0.0.100")}, {"v6", rtr.V6("fd00::100")}, {"v4mapped", rtr.V6("::ffff:10.0.0.100")}, {"svc", rtr.SVC(2)}}
-	var nHarness, histories atomic.Int64
-	harness := func(f string, a ...any) { // only the first few are printed in full
-		if nHarness.Add(1) <= 5 {
-			r.HarnessError(f, a...)
+	var histories, nValidFwd atomic.Int64
+	// observations about valid packets (not verdicts): class -> count, first example per class
+	var obsMu sync.Mutex
+	obsCount, obsFirst := map[string]int64{}, map[string]any{}
+	observe := func(cls string, detail func() map[string]any) {
+		obsMu.Lock()
+		defer obsMu.Unlock()
+		obsCount[cls]++
+		if _, ok := obsFirst[cls]; !ok {
+			obsFirst[cls] = detail()
 		}
 	}
 	bubble(t, func(t *testing.T) {
@@ -453,15 +503,18 @@ func TestC05(t *testing.T) {
 											}
 											outc("delivered")
 										case canonArrival:
+											// 'forwarded only if' / 'accepted only if' are necessary conditions: a valid packet that is not
+											// forwarded (or not exactly as predicted) is no violation of the statement. It is counted and the
+											// exploration goes on - only if NO valid packet at all gets through is the harness itself broken.
 											if !fwd {
-												harness("valid packet not forwarded: %v", detail())
+												observe("valid-packet-not-forwarded:"+c05ArrName[ar.kind], detail)
 												return
 											}
+											nValidFwd.Add(1)
 											if res.Fast.Egress != c.EgressIf {
-												harness("valid packet egress %d, want %d: %v", res.Fast.Egress, c.EgressIf, detail())
-											}
-											if want := c.ExpectedOut(raw, lay); !bytes.Equal(res.Out, want) {
-												harness("valid packet output differs from spec: %v\n got %x\nwant %x", detail(), res.Out, want)
+												observe("valid-packet-forwarded-to-unexpected-egress:"+c05ArrName[ar.kind], detail)
+											} else if want := c.ExpectedOut(raw, lay); !bytes.Equal(res.Out, want) {
+												observe("valid-packet-output-differs-from-prediction:"+c05ArrName[ar.kind], detail)
 											}
 											outc("forwarded")
 										default:
@@ -497,8 +550,22 @@ func TestC05(t *testing.T) {
 			r.Sample(map[string]any{"base_case": cs[i].Name, "ingress": fmt.Sprint(cs[i].In), "packet": fmt.Sprintf("%x", raw)})
 		}
 	})
-	if n := nHarness.Load(); n > 5 {
-		r.HarnessError("%d valid packets in total were not forwarded as predicted (first 5 shown)", n)
+	r.Extra["valid_packets_forwarded_as_predicted_or_not"] = nValidFwd.Load()
+	if nValidFwd.Load() == 0 {
+		r.HarnessError("not a single valid packet was forwarded: every rejection of this run is vacuous (harness or router set-up broken)")
+	}
+	{
+		var clss []string
+		for c := range obsCount {
+			clss = append(clss, c)
+		}
+		sort.Strings(clss)
+		obs := map[string]any{}
+		for _, c := range clss {
+			obs[c] = map[string]any{"count": obsCount[c], "first": obsFirst[c]}
+			fmt.Printf("OBSERVATION property=C05 %s: %d valid packets (no violation of the statement, which only gives necessary conditions)\n", c, obsCount[c])
+		}
+		r.Extra["observations_on_valid_packets"] = obs
 	}
 	r.Assumptions = []string{
 		"'rejected' is read as 'not forwarded': a silent drop is accepted; when the router answers with SCMP and the packet has exactly one defect of the statement, type/code/pointer are checked",
@@ -510,7 +577,8 @@ func TestC05(t *testing.T) {
 		"underlay source-address spoofing (a host sending from a sibling router's address) is outside the unit under test: the arrival link is given",
 		"interface identifiers are local to an AS: a hop field of another AS carrying a number that also designates an interface of this AS (own or sibling-owned) says nothing about this AS's ingress interface",
 		"the verdict for a packet must not depend on what the same processor handled before (processors are per-goroutine, long-lived): a difference between fresh processors and any length-1 history is a violation, and the differing result is judged by the same table (finding keys with suffix /after-other-packet)",
-		"'accepted only if' is a necessary condition: a valid packet that is NOT forwarded is not a violation of the statement; it is reported as a baseline failure (HARNESS-ERROR, exit 2) because all rejections derived from that packet would be vacuous - it never replaces a violation found in the same run (violations decide the exit code first)",
+		"'accepted only if' / 'forwarded only if' are necessary conditions: a valid packet that is NOT forwarded (or leaves differently than predicted) is not a violation of the statement; such packets are counted per arrival kind (Extra.observations_on_valid_packets, OBSERVATION lines) and the exploration continues; only when no valid packet at all is forwarded is the run a harness failure (all rejections would be vacuous). The one two-sided clause - local delivery iff external arrival + last hop + local DstIA - is judged in both directions",
+		"at the first hop after a segment change the previous hop field is not authenticated by this router: its other interface (the one that does not name the AS ingress) is arbitrary and must not influence which sibling link the packet is accepted from",
 	}
 	r.Finish(6)
 }
